@@ -34,8 +34,11 @@ func c04Match(key string, got any, v gval) string {
 		if got != nil {
 			return fmt.Sprintf("%q: nil came back as %v", key, got)
 		}
-	case "string", "stringer", "error", "bytes", "level", "fallback", "duration", "time":
+	case "string", "stringer", "error", "bytes", "level", "fallback", "duration", "time", "textm":
 		want := v.text
+		if v.kind == "textm" {
+			want = v.jtext
+		}
 		var s string
 		var ok bool
 		if v.kind == "error" {
